@@ -9,7 +9,7 @@
 #endif
 #include "classes.h"
 
-static cls_t *C;
+static cls_t *C; static int g_big_ok;      /* the large builder states take part in the thorough tier (each costs hundreds of allocations per replay) */
 typedef struct { spif_obj_t o[2]; long base; const char *last; } st_t;
 typedef struct { int k, slot, arg; } op_t;      /* k: 0 build, 1 dup, 2 mutate, 3 del */
 static op_t OPS[200]; static int NOPS;
@@ -37,7 +37,7 @@ static int enabled(void *vs, int op)
 {
     st_t *s = vs; op_t *o = &OPS[op];
     switch (o->k) {
-    case 0: return s->o[o->slot] == NULL;
+    case 0: return s->o[o->slot] == NULL && (g_big_ok || !cls_is_big(C, o->arg));
     case 1: return s->o[o->slot] != NULL && s->o[1 - o->slot] == NULL;
     default: return s->o[o->slot] != NULL;
     }
@@ -97,6 +97,7 @@ int main(int argc, char **argv)
     libast_debug_level = (unsigned) mc_dlevel();        /* --dlevel=N: the whole run at runtime debug level N (default 0) */
 #endif
     int depth = (int) mc_arg_int("depth", mc_thorough() ? 6 : 4);
+    g_big_ok = (int) mc_arg_int("big", mc_thorough() ? 1 : 0);
     const char *only = mc_arg("class", NULL);
     mc_info("alphabet", "per class (str, ustr, mbuff, objpair, tok, url, regexp, list/vector/map x 3 families): two slots; ops build(state) x slot, dup, every ownership-correct mutator "
             "(setters, done/re-init, remove/remove_at handing elements back, to_array, iterators, get_keys/values/pairs, in-place element mutation) x slot, del; depth <= %d; "
